@@ -1148,3 +1148,9 @@ def r9c(cx):
 
 
 RS.explanation += ' Before execve the command traps are reset through the signal system, which unblocks them (R9c, open finding).'
+
+
+from rules.C08 import r13 as _c08_mask_window
+RS.rules.append(Rule('C11.R12', 'K-ORDER+K-RES', 'no disposition is changed (and nothing returns) between block_sigint_sigquit and restore_sigmask: a caught signal '
+                     'stays blocked outside select and the select mask never inherits the temporary block (C08.R13)', _c08_mask_window))
+RS.explanation += ' No disposition is changed between block_sigint_sigquit and restore_sigmask (R12 = C08.R13).'
